@@ -21,6 +21,35 @@ CLAIMED = {
     ),
 }
 
+GEN = ("asyncio (CPython 3.12) loop/task semantics are environment; exhaustive within the stated "
+       "constants; replay on the controlled SelectorEventLoop subclass only")
+TECH = "TLA+ model checking (TLC) + spec-to-code replay + TLC trace validation"
+CLAIMED.update({
+    "C10": dict(
+        text="TLC exhaustively checks the implementation-shaped models of Semaphore and CapacityLimiter "
+             "(all client programs up to the bound, total_tokens assignments, foreign borrowers, scope and "
+             "native cancellation at every between-handle point) against the observers P_Sem / P_Limiter; "
+             "choice edges and sampled behaviours are replayed on the real primitives and the recorded "
+             "traces are validated by TLC against the same observers.",
+        design_ref="DESIGN.md section 3 (C10)", note=GEN, technique=TECH),
+    "C11": dict(
+        text="TLC exhaustively checks the models of Event and Condition (wait/notify(n)/notify_all, "
+             "cancellation before / in the same cycle as / after the notification) against P_Event and the "
+             "nondeterministic specification P_Cond (silent withdraw / pass-on steps, subset construction); "
+             "behaviours replayed on the real code, traces validated by TLC.",
+        design_ref="DESIGN.md section 3 (C11)", note=GEN, technique=TECH),
+    "C12": dict(
+        text="TLC exhaustively checks the model of memory object streams (buffer sizes 0/1/2/inf, blocking and "
+             "*_nowait calls by tasks and by outside callbacks, cancellation in the hand-over cycle) against "
+             "the delivery clauses of P_Chan; behaviours replayed on the real streams, traces validated by TLC.",
+        design_ref="DESIGN.md section 3 (C12, C13)", note=GEN, technique=TECH),
+    "C13": dict(
+        text="Same model and observer as C12, closing clauses: clone/close histories on both ends with peers "
+             "blocked, EndOfStream / BrokenResourceError / ClosedResourceError exactly when stated, open "
+             "counts true, nobody left blocked at quiescence.",
+        design_ref="DESIGN.md section 3 (C12, C13)", note=GEN, technique=TECH),
+})
+
 NOT_YET = "check not built yet in this round (planned, see DESIGN.md section 3)"
 
 def main():
